@@ -278,6 +278,54 @@ def requests_keep_negotiation(ctx):
                     return
 
 
+def downgraded_reply(ctx):
+    """the negotiated setting also binds what is ACCEPTED: with header signing negotiated, a reply protected without it (signature over the
+    stub alone — what a reply with a tampered header looks like) is rejected, and does not switch the connection over; and the other way
+    round (three requests, the second reply protected the other way; both clients)"""
+    alpha = server_alphabet(ctx.rng)
+    for sign in (True, False):
+        for use_async in (False, True):
+            acks = [alpha["ackAA1t" if sign else "ackAA0t"](0), alpha["ackAA1t" if sign else "ackAA0t"](1)]
+            prov = rpcfmt.ScriptedProvider(script=[(b"c1", False), (b"c2", True)])
+            replies = list(acks) + [rpcsim.sealed_response(bytes([i]) * 20, 16, sign if i != 1 else not sign)[0] for i in range(3)]
+            outcomes = []
+
+            def drive_sync():
+                sock = rpcsim.FakeSocket(replies=list(replies))
+                c = rpcsim.sync_client(sock, prov)
+                c.bind(contexts())
+                for i in range(3):
+                    try:
+                        c.request(0, 0, bytes([65 + i]) * 9)
+                        outcomes.append("ok")
+                    except Exception as e:  # noqa
+                        outcomes.append("err " + canon_exc(e))
+
+            async def drive_async():
+                reader = asyncio.StreamReader()
+                pending = list(replies)
+                w = rpcsim.FakeWriter(lambda data: reader.feed_data(pending.pop(0)) if pending else reader.feed_eof())
+                c = rpcsim.async_client(reader, w, prov)
+                await asyncio.wait_for(c.bind(contexts()), 2)
+                for i in range(3):
+                    try:
+                        await asyncio.wait_for(c.request(0, 0, bytes([65 + i]) * 9), 2)
+                        outcomes.append("ok")
+                    except Exception as e:  # noqa
+                        outcomes.append("err " + canon_exc(e))
+            try:
+                asyncio.run(drive_async()) if use_async else drive_sync()
+            except Exception as e:  # noqa
+                outcomes.append("bind err " + canon_exc(e))
+            ctx.count("downgraded_reply")
+            got = [bool(w_[3]) for w_ in prov.wrap_calls] + [bool(u_[4]) for u_ in prov.unwrap_calls]
+            inp = {"scenario": "downgraded_reply", "negotiated_header_signing": sign, "second_reply_header_signed": not sign, "async": use_async}
+            if len(outcomes) != 3 or outcomes[0] != "ok" or not outcomes[1].startswith("err") or outcomes[2] != "ok" or any(g != sign for g in got):
+                ctx.violation("a reply protected with the other header-signing setting than the one negotiated at bind time is accepted, or switches the connection over",
+                              inp, f"outcomes={outcomes} wrap/unwrap sign_header={got}", f"['ok', 'err …', 'ok'], every wrap / unwrap with sign_header={sign}")
+                return
+
+
 def run(ctx):
     from dpapi_ng import _client as cl
     from dpapi_ng._rpc import _pdu
@@ -401,6 +449,7 @@ def run(ctx):
     request_after_bind(ctx)
     two_clients(ctx)
     requests_keep_negotiation(ctx)
+    downgraded_reply(ctx)
 
 
 def search(ctx, broken, disagreements):
